@@ -128,7 +128,8 @@ def check_case(ctx, c, m, stats):
         res, det = closure_impl(c, w[1])
         stats["closure"] += 1
         if res != "same":
-            ctx.violation("corr:closure", c.to_json(), impl=res + " " + det, model=pm["CL"][:600], signature="C09:closure:" + res,
+            feat = res + (":bytearray-read-back-as-bytes" if "bytearray(" in repr(c.datum) else "")
+            ctx.violation("corr:closure", c.to_json(), impl=res + " " + det, model=pm["CL"][:600], signature="C09:closure:" + feat,
                           found_input=True, detail="read with return_named_type=True then write back does not reproduce the bytes")
         elif not pm["CL"].startswith("same"):
             ctx.violation("corr:closure", c.to_json(), impl="same", model=pm["CL"][:600], signature="C09:model-differs:closure",
@@ -185,6 +186,20 @@ WITNESSES = [
 def fixed_witnesses(ctx):
     import fastavro, json
     obs = {}
+    # closure witness: bytearray under [null, fixed(2), bytes] (see C09_closure_refuted)
+    c = CC.Case()
+    c.raw = ["null", {"type": "fixed", "name": "F", "size": 2}, "bytes"]
+    c.named = {}
+    c.parsed = fastavro.parse_schema(json.loads(json.dumps(c.raw)), c.named)
+    c.datum, c.suffix, c.wopts, c.ropts, c.tag, c.use_raw = bytearray(b"ab"), b"", {}, {}, "witness:none", False
+    w = CC.impl_write(c.parsed, c.datum)
+    ctx.count("corr:closure", ("witness", "bytearray"))
+    if w[0] == "ok":
+        res, det = closure_impl(c, w[1])
+        if res != "same":
+            ctx.violation("corr:closure", c.to_json(), impl=res + " " + det, model="C09_closure_refuted: the model shows the same difference",
+                          signature="C09:closure:" + res + ":bytearray-read-back-as-bytes", found_input=True,
+                          detail="read with return_named_type=True then write back does not reproduce the bytes")
     for raw, datum, idx, what in WITNESSES:
         named = {}
         parsed = fastavro.parse_schema(json.loads(json.dumps(raw)), named)
